@@ -276,12 +276,19 @@ json::Value eventOf(Ctx& X, const Stmt* st) {
     return std::move(o);
   }
   if (auto* bo = dyn_cast<BinaryOperator>(st)) {
-    if (bo->isAssignmentOp())
-      return json::Object{{"k", "assign"}, {"o", bo->getOpcodeStr().str()}, {"line", lineOf(X, bo->getBeginLoc())}, {"lhs", pathOf(X, bo->getLHS())}, {"rhs", exprJ(X, bo->getRHS())}};
+    if (bo->isAssignmentOp()) {
+      json::Object o{{"k", "assign"}, {"o", bo->getOpcodeStr().str()}, {"line", lineOf(X, bo->getBeginLoc())}, {"lhs", pathOf(X, bo->getLHS())}, {"rhs", exprJ(X, bo->getRHS())}};
+      std::string m = macroOf(X, bo->getBeginLoc()); if (!m.empty()) o["macro"] = m;
+      return std::move(o);
+    }
     return nullptr;
   }
   if (auto* uo = dyn_cast<UnaryOperator>(st)) {
-    if (uo->isIncrementDecrementOp()) return json::Object{{"k", "incdec"}, {"o", UnaryOperator::getOpcodeStr(uo->getOpcode()).str()}, {"line", lineOf(X, uo->getBeginLoc())}, {"lhs", pathOf(X, uo->getSubExpr())}};
+    if (uo->isIncrementDecrementOp()) {
+      json::Object o{{"k", "incdec"}, {"o", UnaryOperator::getOpcodeStr(uo->getOpcode()).str()}, {"line", lineOf(X, uo->getBeginLoc())}, {"lhs", pathOf(X, uo->getSubExpr())}};
+      std::string m = macroOf(X, uo->getBeginLoc()); if (!m.empty()) o["macro"] = m;
+      return std::move(o);
+    }
     return nullptr;
   }
   if (auto* ds = dyn_cast<DeclStmt>(st)) {
